@@ -1405,6 +1405,23 @@ let suite_tfile (line : string) : string =
         (List.length bl) !nm
   | _ -> failwith "bad tfile case"
 
+(* ---------- suite: cache (the LRU cache) ---------- *)
+let suite_cache (line : string) : string =
+  match split_nonempty ' ' line with
+  | id :: cap :: ops ->
+      let parse op =
+        let body = String.sub op 1 (String.length op - 1) in
+        match op.[0] with
+        | 'I' -> let i = String.index body '=' in
+            CInsert (n_of_string (String.sub body 0 i), n_of_string (String.sub body (i + 1) (String.length body - i - 1)))
+        | 'G' -> CGet (n_of_string body)
+        | 'R' -> CRemove (n_of_string body)
+        | _ -> failwith "bad cache op" in
+      let res = lru_run (lru_new (nat_of_int (int_of_string cap))) (List.map parse ops) in
+      Printf.sprintf "%s %s" id
+        (String.concat " " (List.map (fun (v, n) -> (match v with Some x -> string_of_n x | None -> "-") ^ "," ^ string_of_int (int_of_nat n)) res))
+  | _ -> failwith "bad cache case"
+
 let () =
   let suite = Sys.argv.(1) in
   let f =
@@ -1431,6 +1448,7 @@ let () =
     | "proto" -> suite_proto
     | "wfault" -> suite_wfault
     | "tfile" -> suite_tfile
+    | "cache" -> suite_cache
     | _ -> failwith ("unknown suite " ^ suite)
   in
   try
